@@ -1,0 +1,59 @@
+//go:build verif
+
+// Ghost lemma functions for govc (contract-based deductive verification, see /verif/DESIGN.md).
+// Compiled only with the build tag "verif"; never part of a normal build. Each function is a
+// proof script: it calls library functions in some order, and its contract (in
+// verif_contracts.go) states what then follows FROM THE CALLEES' CONTRACTS ALONE.
+
+package psatoken
+
+import (
+	"crypto"
+
+	cose "github.com/veraison/go-cose"
+)
+
+// C11: a profile-2 claims-set on which every mandatory claim was set successfully validates.
+func verifLemmaP2AllMandatorySet(c *P2Claims, client int32, lc uint16, impl, nonce, inst []byte, comps []ISwComponent) bool {
+	if c.SetClientID(client) != nil || c.SetSecurityLifeCycle(lc) != nil || c.SetImplID(impl) != nil ||
+		c.SetNonce(nonce) != nil || c.SetInstID(inst) != nil || c.SetSoftwareComponents(comps) != nil {
+		return false
+	}
+	return true
+}
+
+// C11: the same for profile 1 (component list or, with a nil list, the no-measurements flag).
+func verifLemmaP1AllMandatorySet(c *P1Claims, client int32, lc uint16, impl, boot, nonce, inst []byte, comps []ISwComponent) bool {
+	if c.SetClientID(client) != nil || c.SetSecurityLifeCycle(lc) != nil || c.SetImplID(impl) != nil ||
+		c.SetBootSeed(boot) != nil || c.SetNonce(nonce) != nil || c.SetInstID(inst) != nil || c.SetSoftwareComponents(comps) != nil {
+		return false
+	}
+	return true
+}
+
+// C11: setters of different claims commute, a failed set changes nothing, the last successful set wins.
+func verifLemmaSettersCommute(a, b *P2Claims, vsi1, vsi2 string, seed []byte) bool {
+	if a.SetVSI(vsi1) != nil || a.SetBootSeed(seed) != nil || a.SetVSI(vsi2) != nil {
+		return false
+	}
+	_ = a.SetVSI("") // rejected: must leave vsi2 in place
+	if b.SetBootSeed(seed) != nil || b.SetVSI(vsi2) != nil {
+		return false
+	}
+	return true
+}
+
+// C03: the token returned by ValidateAndSign decodes to an Evidence whose message carries the very
+// payload that was signed, and whose claims were decoded from that payload.
+// Verification of the decoded Evidence then gives the verdict verification of the signing Evidence gives.
+func verifLemmaSignThenDecode(e *Evidence, signer cose.Signer, pk crypto.PublicKey) (*Evidence, bool, bool) {
+	tok, err := e.ValidateAndSign(signer)
+	if err != nil {
+		return nil, false, false
+	}
+	d, err := DecodeEvidenceFromCOSE(tok)
+	if err != nil {
+		return nil, false, false
+	}
+	return d, true, (e.Verify(pk) == nil) == (d.Verify(pk) == nil)
+}
